@@ -117,7 +117,29 @@ def skip_pattern_bounded(seed):
     mi = repo.modules['yalafi.shell.shell']
     fdef = next(n for n in mi.tree.body if isinstance(n, ast.FunctionDef)
                 and n.name == 'skip_file')
-    code = compile(ast.Module(body=[fdef], type_ignores=[]), mi.path, 'exec')
+    # module-level statements that bind a name skip_file reads (e.g. a
+    # regular expression compiled once at start-up) are taken along, in
+    # source order
+    bound_in = {a.arg for a in fdef.args.args} | {
+        x.id for x in ast.walk(fdef) if isinstance(x, ast.Name)
+        and isinstance(x.ctx, ast.Store)}
+    free = {x.id for x in ast.walk(fdef) if isinstance(x, ast.Name)
+            and isinstance(x.ctx, ast.Load)} - bound_in - {'re', 'cmdline'}
+    deps = []
+    for st_ in mi.tree.body:
+        if st_ is fdef or isinstance(st_, (ast.FunctionDef, ast.ClassDef,
+                                           ast.Import, ast.ImportFrom)):
+            continue
+        if any(isinstance(x, ast.Name) and isinstance(x.ctx, ast.Store)
+               and x.id in free for x in ast.walk(st_)):
+            deps.append(st_)
+    code = compile(ast.Module(body=deps + [fdef], type_ignores=[]), mi.path,
+                   'exec')
+
+    class _T2T:
+        @staticmethod
+        def fatal(msg):
+            raise SystemExit(1)
     n, fails = 0, []
     pats = [None, 'a\\.tex', 'a|b', 'b/.*', '.*a', 'a.tex', '(a|b)\\.tex']
     names = set()
@@ -125,13 +147,25 @@ def skip_pattern_bounded(seed):
         for t in itertools.product(['a', 'b', '.', '/', 'tex'], repeat=ln):
             names.add(''.join(t))
     for pat in pats:
-        g = {'re': re, 'cmdline': types.SimpleNamespace(skip=pat)}
-        exec(code, g)
+        g = {'re': re, 'cmdline': types.SimpleNamespace(skip=pat),
+             'tex2txt': _T2T, 'sys': __import__('sys')}
+        try:
+            exec(code, g)
+        except NameError as e:
+            # the function cannot be isolated from the script any more:
+            # the stand-in does not apply (said so, nothing is reported)
+            return {'name': 'skip-pattern-matches-whole-file-names',
+                    'bounded': True, 'bound': 'not applicable: %s' % e,
+                    'evaluations': 0, 'failures': []}
         for fn in sorted(names):
             n += 1
             want = bool(pat) and re.fullmatch(pat, fn) is not None
             try:
                 got = bool(g['skip_file'](fn))
+            except NameError as e:
+                return {'name': 'skip-pattern-matches-whole-file-names',
+                        'bounded': True, 'bound': 'not applicable: %s' % e,
+                        'evaluations': 0, 'failures': []}
             except Exception as e:      # noqa
                 got = 'exception %r' % (e,)
             if got != want:
